@@ -571,7 +571,7 @@ def model_strategy(max_n=30, builtins=True, runspecs=None, stock_builtins=True, 
             if builtins and stock_builtins and draw(st.integers(0, 3)) == 0:
                 extra = draw(builtin([a["name"] for a in aux], "stock"))
                 tree = ["bin", draw(st.sampled_from(["+", "-"])), tree, extra]
-            elif stock_builtins and draw(st.integers(0, 2)) == 0:
+            elif stock_builtins and draw(st.integers(0, 1)) == 0:
                 # plain DSL functions over elements directly in the stock equation: min/max/abs/If of converters, flows and stocks
                 names_ = [a["name"] for a in aux] + stock_names
                 el = st.sampled_from(names_).map(lambda nm: ["ref", nm])
